@@ -71,8 +71,51 @@ def handle (asIs : Bool) (op : String) (fa : FArg) : Option String := do
     pure (chk (ok (roundedIntStr r)) (r.1 == 0 && r.2.isSome))
   | _ => none
 
+/-! ### `s32.dest d:<B> <n>` (round 6): the digit estimates themselves
+
+  `Repr::<B>::new(n, 0).digits_lb()` / `.digits_ub()` of dashu (harness/src/ops_f32.rs) against `digitsLbReal` / `digitsUbReal`
+  of `Proofs/Float/{DigitsLb,Estimate}.lean` evaluated with the soft-float replica (every `*`, `/` an exact result rounded to
+  nearest-even, `log2_bounds` = `FloatSoft.log2Bounds`, `as usize` = floor); beside it the compiled-`Float32` replicas
+  `dlbF32` / `dubF32` (what the `f.*` model functions run with) and the enclosure `digits_lb ≤ digits ≤ digits_ub` that
+  `Props/C10F32.digits_estimates_enclose_libm` proves. -/
+
+/-- `Repr::new` strips the trailing zero digits -/
+def stripBase (B : Nat) (n : Nat) : Nat :=
+  if B < 2 then n else
+  let rec go (fuel n : Nat) : Nat :=
+    match fuel with
+    | 0 => n
+    | fuel + 1 => if n ≠ 0 ∧ n % B = 0 then go fuel (n / B) else n
+  go (n.log2 + 1) n
+
+open Dashu.Model.Float.SoftF32 in
+def destSoft (B n : Nat) : Option (Nat × Nat) := do
+  let (lb, ub) ← Dashu.Driver.FloatSoft.log2Bounds n
+  let (blb, bub) ← Dashu.Driver.FloatSoft.log2Bounds B
+  let L ← ofBits 1050288283
+  let lo ← if B = 2 then some lb else if B = 10 then some (mul lb L) else div lb bub
+  let hi ← if B = 2 then some ub else if B = 10 then some (mul ub L) else div ub blb
+  let fl := fun (v : Val) => (toQ v).1 / (toQ v).2
+  pure (fl lo, fl hi + 1)
+
+def destOp (B n0 : Nat) : Option String := do
+  if B < 2 ∨ n0 = 0 then none
+  let n := stripBase B n0
+  let (lo, hi) ← destSoft B n
+  let s := ok ("d:" ++ toString lo ++ " d:" ++ toString hi)
+  let v : Int := n
+  let s := if (dlbF32 B v, dubF32 B v) = (lo, hi) then s
+           else s ++ " !model-soft-f32 native=" ++ toString (dlbF32 B v) ++ "," ++ toString (dubF32 B v)
+  pure (if lo ≤ digitsI B v ∧ digitsI B v ≤ hi then s else mism s ("digits-estimate-enclosure digits=" ++ toString (digitsI B v)))
+
 def dispatchX (asIs : Bool) : Dispatch := fun W op args =>
   match args with
+  | [b, a] =>
+    if op == "s32.dest" then
+      match parseDecNat b, parseNat a with
+      | some B, some n => destOp B n
+      | _, _ => none
+    else dispatchWith asIs W op args
   | [a] =>
     if xOps.contains op then
       match parseF a with
